@@ -393,7 +393,9 @@ func constructEd25519Key(data []byte) (types.SigningPublicKey, error) {
 	}
 
 	// Create Ed25519PublicKey from the bytes using safe constructor
-	ed25519_key, err := ed25519.NewEd25519PublicKey(data)
+	// NewEd25519PublicKey wraps the slice it is given: copy first so that the key
+	// does not alias the caller's (parse) buffer.
+	ed25519_key, err := ed25519.NewEd25519PublicKey(append([]byte(nil), data...))
 	if err != nil {
 		return nil, oops.Wrapf(err, "failed to construct Ed25519 public key")
 	}
@@ -412,7 +414,7 @@ func constructEd25519PHKey(data []byte) (types.SigningPublicKey, error) {
 	}
 
 	// Create Ed25519PublicKey from the bytes using safe constructor
-	ed25519ph_key, err := ed25519.NewEd25519PublicKey(data)
+	ed25519ph_key, err := ed25519.NewEd25519PublicKey(append([]byte(nil), data...))
 	if err != nil {
 		return nil, oops.Wrapf(err, "failed to construct Ed25519ph public key")
 	}
